@@ -479,8 +479,14 @@ async fn read_length_and_string<IO: RW>(io: &mut IO) -> Result<String, Error> {
 
 async fn read_null_terminated_string<IO: RW>(io: &mut IO) -> Result<String, Error> {
     let mut buf = Vec::new();
-    io.read_until(0, &mut buf).await.context("read domain")?;
-    buf.pop();
+    // SOCKS4 user ids and SOCKS4a host names are at most 255 bytes plus the terminator
+    io.take(256)
+        .read_until(0, &mut buf)
+        .await
+        .context("read domain")?;
+    if buf.pop() != Some(0) {
+        bail!("unterminated or oversized string field");
+    }
     Ok(String::from_utf8_lossy(&buf).to_string())
 }
 
